@@ -6,8 +6,10 @@ import (
 
 // ctlStream reassembles a client's TCP control connection (server side view).
 type ctlStream struct {
-	client string
-	buf    []byte
+	client  string
+	buf     []byte
+	garbage bool  // bytes that cannot start a frame were seen: the server may drop the connection
+	endedAt int64 // server-side read returned an error / EOF, or the server closed it (0 = open)
 }
 
 func (m *Monitor) TCPReadCall(c *TCPConn) {}
@@ -24,11 +26,21 @@ func (m *Monitor) TCPRead(c *TCPConn, b []byte) {
 		cs = &ctlStream{client: akey(c.raddr.IP, c.raddr.Port)}
 		m.tcpCtl[c] = cs
 	}
-	if cs.buf == nil && false {
+	if cs.garbage {
 		return
 	}
 	cs.buf = append(cs.buf, b...)
 	for {
+		if len(cs.buf) >= 1 && cs.buf[0]&0xC0 != 0 && cs.buf[0]&0xC0 != 0x40 {
+			cs.garbage = true
+			m.ctlEnd(cs, now)
+			return
+		}
+		if len(cs.buf) >= 8 && cs.buf[0]&0xC0 == 0 && !(cs.buf[4] == 0x21 && cs.buf[5] == 0x12 && cs.buf[6] == 0xA4 && cs.buf[7] == 0x42) {
+			cs.garbage = true
+			m.ctlEnd(cs, now)
+			return
+		}
 		n, ok := refFrameLen(cs.buf)
 		if !ok || n > len(cs.buf) {
 			return
@@ -62,7 +74,44 @@ func (m *Monitor) TCPWrite(c *TCPConn, b []byte) {
 }
 
 func (m *Monitor) TCPAccepted(l *TCPListener, c *TCPConn) {}
-func (m *Monitor) TCPClosed(c *TCPConn, how string)       {}
+
+func (m *Monitor) ctlEnd(cs *ctlStream, now int64) {
+	if cs.endedAt == 0 {
+		cs.endedAt = now
+		m.ctlEnded[cs.client] = now
+	}
+}
+
+// TCPReadEnd: a Read on a simnet connection returned an error or EOF.
+func (m *Monitor) TCPReadEnd(c *TCPConn, err error) {
+	if c.Role != "listener-conn" {
+		return
+	}
+	now := m.K.Now()
+	m.mu.Lock()
+	defer m.mu.Unlock()
+	cs := m.tcpCtl[c]
+	if cs == nil {
+		cs = &ctlStream{client: akey(c.raddr.IP, c.raddr.Port)}
+		m.tcpCtl[c] = cs
+	}
+	m.ctlEnd(cs, now)
+}
+
+func (m *Monitor) TCPClosed(c *TCPConn, how string) {
+	if c.Role != "listener-conn" {
+		return
+	}
+	now := m.K.Now()
+	m.mu.Lock()
+	defer m.mu.Unlock()
+	cs := m.tcpCtl[c]
+	if cs == nil {
+		cs = &ctlStream{client: akey(c.raddr.IP, c.raddr.Port)}
+		m.tcpCtl[c] = cs
+	}
+	m.ctlEnd(cs, now)
+}
 
 func (m *Monitor) respConnect(r *mReq, msg *stun.Message, ok bool, code int, I ivl)  {}
 func (m *Monitor) respConnBind(r *mReq, msg *stun.Message, ok bool, code int, I ivl) {}
